@@ -8,7 +8,9 @@
    per discovery run: finish synchronously or later), the queue limit and the controller class.
    `reachable max discov ms ds s ag` holds for every configuration (state s, call-stack agenda ag)
    that any such history can be in at any instant, inside re-entrant callbacks included.
-   `run_history` runs a whole history and then destroys the controller. *)
+   `run_history` runs a whole history and then destroys the controller; the completion callbacks the
+   destructor runs are live (they may submit, pause, resume), and every configuration inside the
+   destructor is `reachable` too. *)
 From OlaBase Require Import Bytes.
 From Coq Require Import Sorted.
 From C12 Require Import Gen Model ProofsT ProofsA ProofsB ProofsC ProofsD ProofsR ProofsE Proofs.
@@ -37,17 +39,18 @@ Print Assumptions c12_total.
    history (m_out / m_dout = the calls the mock underlying controller has received and not yet
    answered); g_conc, the largest number of calls outstanding at once as counted by the mock at every
    call it receives (that call included), never exceeds 1; the in-flight flag is set exactly while a
-   request is outstanding; and the "response but the queue was empty" (OLA_FATAL) and
+   request is outstanding (until the destructor sets it to block all sending); and the "response but the queue was empty" (OLA_FATAL) and
    front()-of-empty-queue branches are never taken. *)
 Theorem c12_one_outstanding : forall max discov ms ds s ag,
   reachable max discov ms ds s ag ->
   len (m_out s) + len (m_dout s) <= 1 /\ g_conc s <= 1 /\ g_fatal s = false /\
-  (s_pending s = true <-> m_out s <> []).
+  (h_destroying s = false -> (s_pending s = true <-> m_out s <> [])).
 Proof. exact reach_outstanding. Qed.
 Print Assumptions c12_one_outstanding.
 
 (* Exactly once, in order, each with its own reply.
-   After any history followed by destruction: every request ever submitted (ids 0 .. h_next-1, in
+   After any history followed by destruction: every request ever submitted - before or DURING the
+   destruction, i.e. from a completion callback run by the destructor - (ids 0 .. h_next-1, in
    submission order) has exactly one completion and nothing else was completed; the completions of
    the requests that were queued (everything except queue-full rejections) occur in strictly
    increasing id order, i.e. submission order; every completion that is not an answer (queue-full
@@ -86,7 +89,7 @@ Proof.
   - intros max discov ms ds h f H.
     destruct (history_final _ _ _ _ _ _ H) as (A & B & C & D).
     split; [exact A|]. split; [exact B|]. split; [exact C|]. split; [exact D|].
-    exact (history_own _ _ _ _ _ _ H).
+    destruct (history_reach _ _ _ _ _ _ H) as [Hr _]. exact (reach_own _ _ _ _ _ _ Hr).
   - intros max discov ms ds s ag H.
     destruct (reach_once _ _ _ _ _ _ H) as [A B]. destruct (reach_R _ _ _ _ _ _ H) as [C D]. auto.
 Qed.
@@ -110,17 +113,18 @@ Theorem c12_overflow : forall max discov ms ds s ag,
                           len (rs_data rs) <= MAX_OVERFLOW_SIZE /\ rs_type rs = RDM_ACK)
             | None => True
             end) (g_done s) /\
+  (h_destroying s = false ->
   match s_resp s with
   | Some c => exists i cb rest, s_queue s = (i, cb) :: rest /\
                 rs_data c = concat (g_parts s) /\
                 Forall (fun p => exists d, p = i :: d) (g_parts s) /\ g_parts s <> [] /\
                 ((2 <= length (g_parts s))%nat -> len (rs_data c) <= MAX_OVERFLOW_SIZE /\ rs_type c = RDM_ACK)
   | None => g_parts s = [] /\ g_from s = []
-  end.
+  end).
 Proof.
   intros max discov ms ds s ag H. destruct (reach_D _ _ _ _ _ _ H) as [Hd Hr]. split.
   - eapply Forall_impl; [|exact Hd]. intros c Hc Hk. destruct (Hc Hk) as (_ & _ & Hx). exact Hx.
-  - destruct (s_resp s); [|exact Hr].
+  - intros Hnd. specialize (Hr Hnd). destruct (s_resp s); [|exact Hr].
     destruct Hr as (i & cb & rest & Hq & Hok & _). exists i, cb, rest. split; [exact Hq|exact Hok].
 Qed.
 Print Assumptions c12_overflow.
@@ -157,17 +161,19 @@ Print Assumptions c12_paused.
    answered synchronously inside a completion callback, pause/resume around a request in flight,
    discovery, a queue-full rejection and destruction with requests queued.  Requests 0,1,2 are answered
    in order (1 with the concatenated, tagged overflow data), 5 is rejected, 3 and 4 are failed by the
-   destructor; one call outstanding at most, none sent while paused. *)
+   destructor, whose run of 3's callback submits 6 (and calls Resume), whose callback submits 7 -
+   both failed by the destructor too; one call outstanding at most, none sent while paused. *)
 Example c12_example :
   let ack := mkReply 0 (Some (mkResp 0 1 33 0 [7])) 1 in
   let ovf := mkReply 0 (Some (mkResp 3 1 33 0 [5])) 1 in
   match run_history 2 true [Later; Sync ovf; Later; Later] [false]
           [Submit [Submit []]; Pause; Resume; Deliver ack; Deliver ack; Submit []; Submit [];
-           Disc true []; Deliver ack; DeliverDisc; Submit []; Submit []] with
+           Disc true []; Deliver ack; DeliverDisc; Submit [Submit [Submit []]; Resume]; Submit []] with
   | Some f => map (fun c => (c_id c, c_kind c,
                              match r_resp (c_reply c) with Some r => rs_data r | None => [] end))
                   (g_done f) =
-              [(0, 0, [0; 7]); (1, 0, [1; 5; 1; 7]); (2, 0, [2; 7]); (5, 1, []); (3, 2, []); (4, 2, [])]
+              [(0, 0, [0; 7]); (1, 0, [1; 5; 1; 7]); (2, 0, [2; 7]); (5, 1, []); (3, 2, []); (4, 2, []);
+               (6, 2, []); (7, 2, [])]
               /\ g_conc f = 1 /\ g_psends f = 0 /\ g_rj f = 0 /\ dv_of f = O /\
               map (fun e => (fst (fst e), snd (fst e), map snd (snd e))) (g_runs f) = [(0, true, [0])] /\
               g_ddone f = [(0, 0)]
